@@ -709,6 +709,12 @@ class DMETProblemDecomposition(ProblemDecomposition):
             float: The chemical potential found by the optimizer.
         """
 
+        # The electron-number mismatch may already vanish at the initial chemical potential, and can then even be
+        # independent of it (one fragment covering the whole molecule, fragments without bath orbitals): the secant
+        # search is ill-defined in that case (scipy raises) and the initial value is the solution.
+        if abs(func(var_params)) < 1e-8:
+            return var_params
+
         result = scipy.optimize.newton(func, var_params, tol=1e-5)
 
         return result.real
